@@ -96,7 +96,10 @@ def run_case(case, method="collect", bare=False):
     d = scratch.scratch_dir() or scratch.enter_scratch()
     path = os.path.join(d, "f.csv")
     runner.write_csv(path, case["records"], **(case.get("dialect") or {}))
-    text = lang.render_csvpath(case["prog"], path, comment=comment_for(case["cfg"]))
+    comment = comment_for(case["cfg"])
+    if case.get("_free"):
+        comment = case["_free"] + (" " + comment if comment else "")
+    text = lang.render_csvpath(case["prog"], path, comment=comment)
     events = []
     nexts = case["cfg"]["nexts"]
     dia = case.get("dialect") or {}
